@@ -3,6 +3,7 @@ package simcheck
 import (
 	"encoding/binary"
 	"fmt"
+	"strings"
 	"time"
 
 	"github.com/basecomplextech/baselibrary/async"
@@ -245,7 +246,8 @@ func parseHeader(b []byte) (h header, ok bool) {
 // recLogger records what the library logs; error records matter to the oracles.
 type recLogger struct {
 	base
-	errors []string
+	errors   []string
+	expected int
 }
 
 type base = logging.Logger
@@ -278,6 +280,18 @@ func (l *recLogger) FatalStatus(m string, s status.Status, kv ...any) { l.add("f
 
 func (l *recLogger) add(level, msg string, st status.Status, kv []any) {
 	line := fmt.Sprintf("%s: %s code=%s msg=%q %v", level, msg, st.Code, st.Message, kv)
+	// what the harness provokes on purpose is logged by design: a handler's own error
+	// status and its sentinel panic
+	if msg == "Channel error" && strings.Contains(st.Message, "verif handler error") {
+		simrt.Logf("LOG(expected) %s", line)
+		l.expected++
+		return
+	}
+	if msg == "Channel panic" && strings.Contains(line, "verif-sentinel-panic") {
+		simrt.Logf("LOG(expected) %s", line)
+		l.expected++
+		return
+	}
 	if len(l.errors) < 200 {
 		l.errors = append(l.errors, line)
 	}
